@@ -415,3 +415,34 @@ pub async fn read_ip_list(path: &str) -> Result<SmallVec<IpAddr, 4>> {
         reload::IpReload::Refuse(_) => Ok(SmallVec::new()),
     }
 }
+
+/// Re-exports of the otherwise private shell functions and types for the
+/// model-checking harness in /verif. Nothing here adds behaviour.
+#[cfg(feature = "verif-hooks")]
+#[allow(unused_imports, dead_code)]
+pub mod verif_hooks {
+    pub use super::connections::reconnect_uplink;
+    pub use super::housekeeping::handle_housekeeping;
+    pub use super::packet_handler::{
+        drain_packet_queue, flush_all_batches, forward_via_connection, handle_srt_packet,
+        handle_uplink_packet, process_connection_events,
+    };
+    #[cfg(unix)]
+    pub use super::reload::analyze_ip_reload;
+    pub use super::reload::{IpReload, ReloadRefusal, analyze_ip_reload_text};
+    pub use super::uplink::{
+        ConnIo, ConnIoMap, ConnectionId, ReaderHandle, UplinkPacket, create_uplink_channel,
+        restart_reader_for, spawn_reader, sync_readers,
+    };
+    pub use super::uplink_recv::process_uplink_packet;
+
+    /// `attribute_nak` is `pub(crate)`; forward to it unchanged.
+    pub fn attribute_nak(
+        connections: &mut [srtla_core::connection::SrtlaConnection],
+        seq_tracker: &super::SequenceTracker,
+        nak: u32,
+        current_time_ms: u64,
+    ) -> Option<usize> {
+        super::packet_handler::attribute_nak(connections, seq_tracker, nak, current_time_ms)
+    }
+}
